@@ -132,10 +132,13 @@ int main(int argc, char** argv) {
       }
   R.count("ebyte_strings", nd);
   // (e) IPv4-looking hosts
-  std::vector<std::string> ipt = {"0", "1", "9", ".", "x", "a", "f"};
+  std::vector<std::string> ipt = {"0", "1", "9", ".", "x", "X", "a", "F", "-"};  // both hex cases, both cases of the marker
+  static const std::string wsbase = "ws://b/";
   uint64_t ne = enum_tokens(ipt, 1, T ? 7 : 6, sh, ns, [&](const std::string& s, uint64_t) {
     eval("http://" + s + "/", nullptr, NOLIMIT);
     eval("http://" + s + ":8", nullptr, NOLIMIT);
+    eval("ws://" + s, nullptr, NOLIMIT);
+    eval("//" + s + "/p", &wsbase, NOLIMIT);
   });
   R.count("ipv4_like_hosts", ne);
   extra["kin"] = std::to_string(ki); extra["kbase"] = std::to_string(kb); extra["kin_nobase"] = std::to_string(ki_nobase);
